@@ -794,7 +794,56 @@ def quic_rederivation_probe(ctx, q):
 
 
 # ====================================================================== entry points
+def quic_connection_probe(ctx, scale=1):
+    """Keys as actually installed for a whole QUIC connection: a handshake from the independent sender
+    (harness/gen_quic.py; the ClientHello offers the four suites in a random order, the ServerHello picks one) is run
+    through the real main.run(); afterwards the session's Handshake / Application decryptors and header-protection keys
+    must be the RFC 9001 keys of the NEGOTIATED suite."""
+    import random
+    import gen_quic
+    import tool
+    import wire
+    import tlexport.main as tmain
+    o = ctx.oracle.setdefault("rfc-quic-connection", {"runs": 0, "violations": 0})
+    for i in range(ctx.n(16, 300) * scale):
+        seed = ctx.rng.getrandbits(48)
+        rng = random.Random(seed)
+        feats = {"retry": False, "zero_rtt": False, "key_updates": 0, "new_cid": False, "prefix_cid": False,
+                 "offer_order": ["shuffled", "default", "suite-first"][i % 3], "suite": list(gen_quic.SUITES)[i % 4]}
+        c, f = gen_quic.random_connection(rng, 0, features=feats)
+        r = tool.run(wire.pcapng(c.items), "\n".join(c.keylog_lines()) + "\n")
+        o["runs"] += 1
+        ctx.count(("quic-conn", seed), nontrivial=f["offer_order"] != "suite-first")
+        ctx.hist("quic_conn.offer_order", f["offer_order"])
+        case = {"kind": "quic-connection", "seed": seed, "features": {k: v for k, v in f.items() if k != "endpoints"}}
+        if r.crashed or not tmain.quic_sessions:
+            ctx.fail("C15:{quic-connection}:no-session", "QUIC connection not processed", case, actual=r.signature())
+            o["violations"] += 1
+            continue
+        sess = tmain.quic_sessions[0]
+        want = {"Handshake": (c.k["shs"], c.k["chs"]), "Application": (c.k["sap"], c.k["cap"])}
+        bad = []
+        for lvl, (ks, kc) in want.items():
+            d = sess.decryptors.get(lvl)
+            d = d[0] if isinstance(d, list) and d else d
+            got = tuple(getattr(d, a, None) for a in ("server_key", "server_iv", "client_key", "client_iv"))
+            exp = (ks.key, ks.iv, kc.key, kc.iv)
+            if got != exp:
+                bad.append(f"{lvl}: installed {[x.hex() if isinstance(x, (bytes, bytearray)) else x for x in got]} "
+                           f"RFC {[x.hex() for x in exp]}")
+        for name, k in (("server_handshake_hp", c.k["shs"]), ("client_handshake_hp", c.k["chs"]),
+                        ("server_application_hp", c.k["sap"]), ("client_application_hp", c.k["cap"])):
+            if sess.keys.get(name) != k.hp:
+                bad.append(f"{name}: installed {sess.keys.get(name)!r} RFC {k.hp.hex()}")
+        if bad:
+            o["violations"] += 1
+            ctx.fail(f"C15:{{quic-connection,{f['suite']:04X},{f['offer_order']}}}:installed-keys",
+                     "keys installed for a QUIC connection differ from the RFC 9001 schedule of the negotiated suite",
+                     case, expected="RFC 9001 keys of the negotiated suite", actual=bad[:3])
+
+
 def explore(ctx, scale=1):
+    quic_connection_probe(ctx, scale)
     impl = all_tls_cases(ctx, scale)
     run_direct(ctx, impl, scale)
     run_quic(ctx, scale)
